@@ -9,8 +9,10 @@ def plan(tier, seed):
     p = Plan()
     p.stubbing = True
     thorough = tier == "thorough"
-    g = 8 if thorough else 4
-    pts = CV.grid(g)
+    g = 2
+    pts = CV.grid(g)        # public-API tie: small grid; the dense grids go through the scalar kernels below
+    gs = 10 if thorough else 6
+    spts = CV.grid(gs)
     chunk = 96
     txt = CV.PRELUDE + CV.ALIAS + CV.SEGMENTS
     hs = [dict(name="k_cv_alias_identity", family="alias", timeout=900, mem_gb=10, replay=CV.replay_curve, rk="all", curve="BT1886",
@@ -23,8 +25,7 @@ def plan(tier, seed):
                sym="x: every f32 in [0,1] with <= 10 significant mantissa bits", covers=["upper range explored"]))
     for name in CURVES:
         for tl in (True, False):
-            # PQ: 4 fast-powf evaluations per direction (~5 s of SAT time per input): smaller grid in the quick tier
-            base = pts if (thorough or name != "PQ") else CV.grid(2)
+            base = pts
             use = [x for x in base if (tl or CV.gamma_domain_ok(name, x))]
             for c in range(0, len(use), chunk):
                 sub = use[c:c + chunk]
@@ -35,6 +36,22 @@ def plan(tier, seed):
                                obligation="%s %s within %.1e of the defining formula (real fast powf/expf)" % (name, "gamma->linear" if tl else "linear->gamma", CV.tol(name, tl)),
                                sym="x on the reduced-precision grid: %d inputs with <= %d mantissa bits, exponents -12..-1, plus 0 and 1 (symbolic index)" % (len(sub), g),
                                covers=["last grid point explored"]))
+    stxt = CV.SCALAR_PRELUDE
+    for name in CURVES:
+        for tl in (True, False):
+            base = spts if name != "PQ" else CV.grid(5 if thorough else 2)
+            use = [x for x in base if (tl or CV.gamma_domain_ok(name, x))]
+            ch = 2048 if name != "PQ" else 32
+            for c in range(0, len(use), ch):
+                sub = use[c:c + ch]
+                n, code = CV.acc_scalar(name, tl, sub, c // ch)
+                stxt += code
+                hs.append(dict(name=n, family="accuracy-scalar", timeout=2400, mem_gb=10, replay=CV.replay_curve, rk="grid", mode="lin" if tl else "gam", curve=name, xs=[CV.bits_of(x) for x in sub],
+                               obligation="%s %s scalar kernel within %.1e of the defining formula (real fast powf/expf)" % (name, "gamma->linear" if tl else "linear->gamma", CV.tol(name, tl)),
+                               sym="x on the reduced-precision grid: %d inputs with <= %d mantissa bits, exponents -12..-1, plus 0 and 1 (symbolic index)" % (len(sub), gs if name != "PQ" else (5 if thorough else 2)),
+                               covers=["last grid point explored"]))
+    stxt += "}\n"
+    p.modules.append(("src/yuv_rgb/transfer.rs", stxt))
     txt += CV.EPILOGUE
     p.modules.append(("src/lib.rs", txt))
     p.modules.append(("src/yuv_rgb/transfer.rs", CV.formula_module()))
@@ -53,7 +70,7 @@ def plan(tier, seed):
     p.functions = ["TransferFunction::to_linear / to_gamma and all 18 scalar curves + image_transfer_fn! (src/yuv_rgb/transfer.rs)", "yuvxyb_math::powf / expf / exp2 / log2 (real, in the accuracy harnesses)",
                    "LinearRgb::try_from(Rgb), Rgb::try_from((LinearRgb, TC, CP)) (public API, 1-pixel images)"]
     p.bounds = ["aliases / identity: all 2^32 inputs; arithmetic segments (thorough tier): every f32 in [0,1] with <= 10 mantissa bits", "formula-level differential: 14 curves x 2 directions; all 2^32 inputs for the division-free curves, inputs with <= 10 significant mantissa bits (all exponents and signs) for sRGB/xvYCC/PQ/HLG whose formulas divide",
-                "accuracy vs the defining formulas: inputs with <= %d significant mantissa bits in [2^-12, 1) plus 0 and 1 (%d inputs per curve and direction); oracle = Python decimal (40 digits) evaluation of the H.273 / BT.2100 formulas" % (g, len(pts))]
+                "accuracy vs the defining formulas: scalar kernels on inputs with <= %d significant mantissa bits in [2^-12, 1) plus 0 and 1 (%d inputs per curve and direction; PQ: %d inputs, it costs seconds of SAT time per input), plus a %d-input tie through the public API; oracle = Python decimal (40 digits) evaluation of the H.273 / BT.2100 formulas" % (gs, len(spts), len(CV.grid(5 if thorough else 2)), len(pts))]
     p.outside = ["inputs with more mantissa bits than the grid (the property's 1,065,353,217 inputs per curve): ~0.1-0.3 s of SAT time per input",
                  "linear->gamma of Log100, Log316 above their thresholds and of HLG above 1/12: evaluated through log10/ln, which Kani over-approximates"]
     p.assumptions = ["defining formulas as transcribed in props/curves.py (BT.1886 pure 2.4 power, IEC sRGB, BT.2100 scene-referred PQ/HLG with the 1.099/0.018/59.5208 OOTF constants)"]
@@ -62,7 +79,7 @@ def plan(tier, seed):
 
 MANIFEST = dict(
     technique="bounded model checking of the real curves and fast powf/expf through the public API (Kani/CBMC): full-domain bit-identity lemmas; accuracy against decimal-precision oracles on a symbolic reduced-precision input grid",
-    text="Alias/identity clauses decided for all 2^32 inputs; arithmetic segments for every f32 in [0,1]; the accuracy clause only for inputs on a reduced-precision grid (width bound on the mantissa: 50 inputs per curve/direction quick, 770 thorough) - "
+    text="Alias/identity clauses decided for all 2^32 inputs; arithmetic segments for every f32 in [0,1]; the accuracy clause only for inputs on a reduced-precision grid (width bound on the mantissa: 770 inputs per curve/direction quick, 12290 thorough; PQ 50 / 386) - "
          "good at catching wrong constants, swapped arms, knee errors and polynomial typos, useless as a proof of the 2^30-point claim.",
     note="Accuracy is bounded to the grid; log-based to_gamma segments are outside (ln/log10 unmodelled). Non-FMA build.",
 )
